@@ -249,10 +249,10 @@ def admissible (W : World) : Op → Bool
     !exclusive (registersIn r) ||
       W.owed.all (fun x => !(x.tbl == registersIn r && x.entry.1 == normKey r key) || x.w == w)
   | .dropStream send id =>
-    -- a stream is dropped by its owner: no other task has a pending future on it
+    -- a half is dropped by the task that owns it: no future OF THAT HALF is pending (they borrow it mutably).
+    -- Futures of the OTHER half of a bidirectional stream (same stream id!) may well be pending.
     W.owed.all (fun x =>
-      !(dropCleans.any (fun p => p.1 == (if send then "SendStream" else "RecvStream") && p.2 == x.tbl)
-        && x.entry.1 == id))
+      !(Reg.owner x.r == (if send then "SendStream" else "RecvStream") && x.entry.1 == id))
   | _ => true
 
 def allAdmissible (W : World) : List Op → Bool
